@@ -20,7 +20,7 @@ ALL_FEATURES = ["err", "rty", "stall", "lock", "cti", "bte"]
 
 
 def gen_arb(rng, tier):
-    n = rng.choice([1, 2, 2, 3, 3, 4, 4, 5, 6, 7, 8, 9])
+    n = rng.choice([1, 2, 2, 3, 3, 4, 4, 5, 6, 7, 8, 9]) if rng.random() < 0.94 else rng.choice([12, 16, 17])
     dw = rng.choice([8, 16, 32, 64])
     gran = rng.choice([g for g in (8, 16, 32, 64) if g <= dw])
     afeat = [f for f in ALL_FEATURES if rng.random() < 0.5]
